@@ -44,9 +44,12 @@ func VerifTeardown() {
 	}
 	// client script
 	steps := 1 + verifChoice("client-steps", verifParam("maxsteps", 2))
+	if e := verifParam("exactsteps", 0); e > 0 {
+		verifAssume(steps == e)
+	}
 	script := make([]int, steps)
 	for i := range script {
-		script[i] = verifChoice("client"+verifItoa(i), 7)
+		script[i] = verifChoice("client"+verifItoa(i), verifParam("kinds", 7))
 		if p := verifParam("pin_client", -1); p >= 0 {
 			verifAssume(script[i] == p)
 		}
@@ -63,7 +66,7 @@ func VerifTeardown() {
 	}
 	desc := "client script:"
 	for _, st := range script {
-		desc += " " + []string{"start-s1", "stop-s1", "stop-unknown", "terminate", "malformed", "bogus", "start-s2"}[st]
+		desc += " " + []string{"start-s1", "stop-s1", "stop-unknown", "terminate", "malformed", "bogus", "start-s2", "init-again"}[st]
 	}
 	verifLog(desc + "; upstream: " + verifItoa(nEvents) + " events then " + []string{"complete", "error", "disconnect", "stays open"}[upEnd])
 	go func() {
@@ -91,6 +94,9 @@ func VerifTeardown() {
 				m = vClientMsg("bogus", "", "")
 			case 6:
 				m = vClientMsg("start", "s2", `subscription { tick }`)
+			case 7:
+				// connection_init once more, on a connection that is already running
+				m = vClientMsg("connection_init", "", "")
 			}
 			if !client.vSend(m) {
 				return
